@@ -61,21 +61,31 @@ func zzC14Check(ext int, n int) {
 	zzCover("C14.done")
 }
 
+// zzC14Lens: payload lengths 0..small, then windows of 22 lengths that straddle the points where
+// the 16-bit length field carries into its high octet (total lengths 256, 512), the default and the
+// jumbo MTU.
+func zzC14Lens(small int, windows []int) []int {
+	var ls []int
+	for n := 0; n <= small; n++ {
+		ls = append(ls, n)
+	}
+	for _, w := range windows {
+		for n := w - 17; n <= w+4; n++ {
+			ls = append(ls, n)
+		}
+	}
+	return ls
+}
+
 func ZZ_C14_Quick() {
 	ext := nondetChoice("ext", 2)
-	n := nondetChoice("plen", 17)
-	zzC14Check(ext, n)
+	ls := zzC14Lens(16, []int{256})
+	ls = append(ls, 1400, 1500)
+	zzC14Check(ext, ls[nondetChoice("plen", len(ls))])
 }
 
 func ZZ_C14_Thorough() {
 	ext := nondetChoice("ext", 2)
-	k := nondetChoice("plen", 67)
-	n := k
-	switch k {
-	case 65:
-		n = 1400
-	case 66:
-		n = 1500
-	}
-	zzC14Check(ext, n)
+	ls := zzC14Lens(64, []int{256, 512, 1024, 1400, 1500, 9000})
+	zzC14Check(ext, ls[nondetChoice("plen", len(ls))])
 }
